@@ -50,6 +50,13 @@ var poolMultiKey = []LeafDef{
 	{"/tri[a=x][b=1][c=y]/v", []string{"p", "q"}, "string"},
 }
 
+// poolKeyOnly: list entries that consist of nothing but their keys (the intent names the key leaf itself).
+var poolKeyOnly = []LeafDef{
+	{"/if[name=e7]/name", []string{"e7"}, "string"},
+	{"/duo[k1=z][k2=y]/k2", []string{"y"}, "string"},
+	{"/peer[name=k1][zone=k2]/zone", []string{"k2"}, "string"},
+}
+
 // poolExtra: leaf-lists, presence containers, defaults.
 var poolExtra = []LeafDef{
 	{"/sys/dns", []string{"LL:a", "LL:a,b", "LL:b,a"}, "ll"},
@@ -110,6 +117,8 @@ func poolFor(name string) []LeafDef {
 			p = append(p, poolMultiKey...)
 		case "extra":
 			p = append(p, poolExtra...)
+		case "keyonly":
+			p = append(p, poolKeyOnly...)
 		case "pres":
 			// (three times: a presence container with its own variant and children of the same owner is drawn often enough)
 			p = append(p, poolPresence...)
